@@ -447,7 +447,7 @@ def merged_paths(interp, f, args, **kw):
     raise AnalysisError("%s: paths return values of different kinds" % f.fq)
 
 
-def integer_power_hazards(f, array_params):
+def integer_power_hazards(f, array_params, _depth=0):
     """[(node, text)]: an array parameter raised to an integer literal power >= 3 (or multiplied by itself as often) while
     still in the caller's dtype.  For integer-typed input (altitudes in metres from numpy.arange, counts) the power wraps
     around silently (x**5 overflows int64 from 6209, int32 from 74), whereas a float exponent or a prior conversion to float
@@ -461,12 +461,27 @@ def integer_power_hazards(f, array_params):
             txt = norm_text(n.value)
             if "float" in txt or "/" in txt:
                 floated.add(n.targets[0].id)
+    def raw(base):
+        """the array argument itself, or a dtype-preserving wrapper of it (asarray / array / copy without dtype)"""
+        while isinstance(base, ast.Call) and norm_text(base.func).split(".")[-1] in ("asarray", "array", "asanyarray", "copy", "atleast_1d") \
+                and base.args and not any(k.arg == "dtype" for k in base.keywords) and len(base.args) == 1:
+            base = base.args[0]
+        return base.id if isinstance(base, ast.Name) and base.id in arr and base.id not in floated else None
     for n in ast.walk(f.node):
         if isinstance(n, ast.BinOp) and isinstance(n.op, ast.Pow) and isinstance(n.right, ast.Constant) and \
                 isinstance(n.right.value, int) and not isinstance(n.right.value, bool) and n.right.value >= 3:
-            base = n.left
-            if isinstance(base, ast.Name) and base.id in arr and base.id not in floated:
-                out.append((n, "%s: integer power of the array argument `%s` in its own dtype" % (norm_text(n), base.id)))
+            b_ = raw(n.left)
+            if b_ is not None:
+                out.append((n, "%s: integer power of the array argument `%s` in its own dtype" % (norm_text(n), b_)))
+        # a helper of the same module handed the array as it came: the helper is part of the function
+        if isinstance(n, ast.Call) and isinstance(n.func, ast.Name) and _depth < 3:
+            callee = getattr(f.module, "funcs", {}).get(n.func.id)
+            if callee is not None and callee is not f:
+                passed = [p_ for p_, a_ in zip(callee.params, n.args) if raw(a_) is not None]
+                passed += [k.arg for k in n.keywords if k.arg in callee.params and raw(k.value) is not None]
+                if passed:
+                    for node_, txt_ in integer_power_hazards(callee, tuple(passed), _depth + 1):
+                        out.append((n, "%s (in helper %s, called as `%s`)" % (txt_, callee.name, norm_text(n)[:50])))
     return out
 
 
@@ -579,3 +594,47 @@ def narrowing_casts(f, names=None):
         if hit and (names is None or (operand is not None and any(isinstance(x, ast.Name) and x.id in names for x in ast.walk(operand)))):
             out.append((n, norm_text(n)[:70]))
     return out
+
+
+WIDE = ("float64", "double", "float_", "longdouble", "float128", "float")
+
+
+def promoted_to_double(f, param):
+    """(True, None, '') if the first use of parameter `param` in f re-binds it to a double-precision copy of itself -
+    numpy.float64(p), float(p), numpy.asarray / array(p, dtype=float | float64 | 'f8' | 'd'), p.astype(float ...) - possibly inside
+    a larger expression (`numpy.float64(p) + eps`); else (False, node, text of the first use).  A value computed from a
+    float32 argument in float32 carries 1e-7 relative error; for quantities that are later differenced that is the whole result."""
+    def is_widen(n):
+        if not isinstance(n, ast.Call):
+            return False
+        fn = norm_text(n.func)
+        last = fn.split(".")[-1]
+        def dt_ok(x):
+            t = norm_text(x).replace("'", "").replace('"', "")
+            return t.split(".")[-1] in WIDE + ("f8", "d")
+        if last in WIDE and len(n.args) == 1 and isinstance(n.args[0], ast.Name) and n.args[0].id == param:
+            return True
+        if last in ("asarray", "array", "asanyarray", "ascontiguousarray") and n.args and isinstance(n.args[0], ast.Name) and n.args[0].id == param:
+            return any(k.arg == "dtype" and dt_ok(k.value) for k in n.keywords) or (len(n.args) > 1 and dt_ok(n.args[1]))
+        if last == "astype" and isinstance(n.func, ast.Attribute) and n.args and dt_ok(n.args[0]):
+            base = n.func.value
+            while isinstance(base, ast.Call) and norm_text(base.func).split(".")[-1] in ("asarray", "array", "asanyarray") and base.args:
+                base = base.args[0]
+            return isinstance(base, ast.Name) and base.id == param
+        return False
+
+    def reads(node):
+        return [n for n in ast.walk(node) if isinstance(n, ast.Name) and n.id == param and isinstance(n.ctx, ast.Load)]
+    for st in f.node.body:
+        if isinstance(st, ast.Expr) and isinstance(st.value, ast.Constant):
+            continue
+        rs = reads(st)
+        if not rs:
+            continue
+        if isinstance(st, ast.Assign) and len(st.targets) == 1 and isinstance(st.targets[0], ast.Name) and st.targets[0].id == param:
+            wid = [n for n in ast.walk(st.value) if is_widen(n)]
+            inside = set(id(x) for w in wid for x in ast.walk(w))
+            if wid and all(id(r_) in inside for r_ in rs):
+                return True, None, ""
+        return False, st, norm_text(st)[:80]
+    return False, f.node, "parameter %s is never used" % param
